@@ -1064,6 +1064,19 @@ mod net {
         /// the hop forwards the read with a key prefix that matches nothing: the server's authentic
         /// reply for the right nonce, with no records (observation only, see the driver)
         SwapPrefix,
+        /// a dishonest storage server (it holds the shared secret, not the record secret): the get
+        /// reply carries a fabricated record, under a correct reply tag for the request's nonce
+        ForgeGet(Forge),
+        /// the same server answers a put with a conflict list that carries a fabricated record
+        ForgeConflict(Forge),
+    }
+
+    #[derive(Clone, Debug)]
+    struct Forge {
+        key: String,
+        version: i64,
+        /// bytes of the server's choice, or the stored bytes (value ‖ record tag) of another entry
+        value: Result<Vec<u8>, String>,
     }
 
     /// modifications of a reply by the hop; every one that changes the reply must be refused
@@ -1085,6 +1098,7 @@ mod net {
         wire_nonces: Mutex<BTreeMap<Vec<u8>, Vec<Vec<u8>>>>, // per client id, as sent
         recorded: Mutex<BTreeMap<Vec<u8>, Vec<GetReply>>>,   // per client id, as seen on the wire
         last: Mutex<Option<(Wire, Wire)>>, // (what the server authenticated, what the hop delivered) of the last read
+        last_conflict: Mutex<Option<Vec<(String, i64, Vec<u8>)>>>, // the conflict list of the last refused put
     }
 
     #[derive(Clone)]
@@ -1123,7 +1137,7 @@ mod net {
                     return Ok(Response::new(reply));
                 }
                 Mode::SwapNonce(n) => n.to_vec(),
-                Mode::Honest | Mode::Tamper(_, _) | Mode::SwapPrefix => request.nonce.clone(),
+                _ => request.nonce.clone(),
             };
             let prefix = match &mode {
                 Mode::SwapPrefix => "\u{10ffff}no-such-key".to_string(),
@@ -1139,6 +1153,22 @@ mod net {
                 .map(|(k, v)| (k.clone(), v.clone()))
                 .collect();
             let hmac = lss_util::compute_shared_hmac(&secret, &forwarded_nonce, &kvs);
+            if let Mode::ForgeGet(f) = &mode {
+                // the fabricated record replaces the entry of its key or is added; the reply tag is right
+                let value = match &f.value {
+                    Ok(b) => b.clone(),
+                    Err(k) => kvs.iter().find(|(kk, _)| kk == k).map(|(_, v)| v.value.clone()).unwrap_or_default(),
+                };
+                let mut forged: Vec<(String, Value)> = kvs.iter().filter(|(k, _)| *k != f.key).map(|(k, v)| (k.clone(), v.clone())).collect();
+                forged.push((f.key.clone(), Value { version: f.version, value }));
+                forged.sort_by(|a, b| a.0.cmp(&b.0));
+                let tag = lss_util::compute_shared_hmac(&secret, &request.nonce, &forged);
+                let to_proto = |l: &Vec<(String, Value)>| l.iter().map(|(k, v)| KeyValue { key: k.clone(), version: v.version, value: v.value.clone() }).collect::<Vec<_>>();
+                let honest = GetReply { kvs: to_proto(&kvs), hmac };
+                let delivered = GetReply { kvs: to_proto(&forged), hmac: tag };
+                *self.0.last.lock().unwrap() = Some((wire_of(&honest), wire_of(&delivered)));
+                return Ok(Response::new(delivered));
+            }
             let kvs_proto = kvs.into_iter().map(|(key, v)| KeyValue { key, version: v.version, value: v.value }).collect();
             let reply = GetReply { kvs: kvs_proto, hmac };
             // --- the man in the middle records what passes, or modifies it
@@ -1212,11 +1242,32 @@ mod net {
             }
             let mut all = self.0.store.lock().unwrap();
             let store = all.entry(auth.client_id.clone()).or_default();
+            let mode = self.0.mode.lock().unwrap().clone();
+            if let Mode::ForgeConflict(f) = &mode {
+                let value = match &f.value {
+                    Ok(b) => b.clone(),
+                    Err(k) => store.get(k).map(|v| v.value.clone()).unwrap_or_default(),
+                };
+                *self.0.last_conflict.lock().unwrap() = Some(vec![(f.key.clone(), f.version, value.clone())]);
+                let conflicts = vec![KeyValue { key: f.key.clone(), version: f.version, value }];
+                return Ok(Response::new(PutReply { success: false, hmac: vec![], conflicts }));
+            }
+            // lssd: a conflicting put is answered with the existing records (a key that does not exist
+            // yet: version -1, no value)
+            let mut conflicts = vec![];
             for (key, value) in kvs.iter() {
                 let expected = store.get(key).map(|v| v.version + 1).unwrap_or(0);
                 if value.version != expected {
-                    return Err(Status::invalid_argument("version conflict"));
+                    conflicts.push(match store.get(key) {
+                        Some(v) => KeyValue { key: key.clone(), version: v.version, value: v.value.clone() },
+                        None => KeyValue { key: key.clone(), version: -1, value: vec![] },
+                    });
                 }
+            }
+            if !conflicts.is_empty() {
+                *self.0.last_conflict.lock().unwrap() =
+                    Some(conflicts.iter().map(|kv| (kv.key.clone(), kv.version, kv.value.clone())).collect());
+                return Ok(Response::new(PutReply { success: false, hmac: vec![], conflicts }));
             }
             for (key, value) in kvs.iter() {
                 store.insert(key.clone(), value.clone());
@@ -1307,6 +1358,136 @@ mod net {
                 client.put(muts, &client_hmac).await.map(|_| ()).map_err(|e| format!("{:?}", e))
             }
             _ => unreachable!(),
+        }
+    }
+
+    type WRec = (String, i64, Vec<u8>);
+    fn j_wrecs(l: &[WRec]) -> serde_json::Value {
+        json!(l.iter().map(|(k, v, x)| json!([k, v.to_string(), hex::encode(x)])).collect::<Vec<_>>())
+    }
+    fn coq_open(hs: &[u8], l: &[WRec]) -> String {
+        let rs: Vec<String> = l.iter().map(|(k, v, x)| format!("({}, ({})%Z, {})", coq_bytes(k.as_bytes()), v, coq_bytes(x))).collect();
+        format!("COpen {} {}", coq_bytes(hs), coq_list(&rs))
+    }
+
+    /// PrivClient against a storage server that fabricates records.  The server holds the shared
+    /// secret (so its reply tags are right) but not the record secret: every record it makes up —
+    /// at a negative version, at a version or key never written, with bytes of its choice or with
+    /// the stored bytes of another entry — must be refused, in a get reply and in the conflict list
+    /// of a refused put; nothing that the signer did not write may be handed back as data.
+    async fn forge_battery(
+        inner: &Arc<Inner>, client: &mut PrivClient, hmac_secret: [u8; 32], keys: &[String], current: &mut State,
+        rng: &mut Rng, ops: &mut Vec<serde_json::Value>, findings: &mut Vec<serde_json::Value>, stats: &mut BTreeMap<String, u64>,
+    ) {
+        // everything the signer ever wrote under this identity: (key, version, plain value)
+        let mut written: Vec<WRec> = vec![];
+        // make sure there is something stored, at a version > 0 for the first key
+        for _ in 0..2 {
+            let k = keys[0].clone();
+            let ver = current.get(&k).map(|(v, _)| v + 1).unwrap_or(0);
+            let x = format!("state {} of {}", ver, k).into_bytes();
+            *inner.mode.lock().unwrap() = Mode::Honest;
+            if client.put(&hmac_secret[..], vec![(k.clone(), Value { version: ver as i64, value: x.clone() })]).await.is_ok() {
+                current.insert(k, (ver, x));
+            }
+        }
+        for (k, (v, x)) in current.iter() {
+            written.push((k.clone(), *v as i64, x.clone())); // earlier versions are no longer served; the current ones are what a read may return
+        }
+        let k0 = keys[0].clone();
+        let v0 = current.get(&k0).map(|(v, _)| *v as i64).unwrap_or(0);
+        let newkey = format!("{}/zz", k0);
+        let other = keys.get(1).cloned().unwrap_or_else(|| newkey.clone());
+        let forges: Vec<(&'static str, Forge)> = vec![
+            ("neg1-bytes66", Forge { key: k0.clone(), version: -1, value: Ok(gen_bytes(rng, 66)) }),
+            ("neg2-bytes32", Forge { key: k0.clone(), version: -2, value: Ok(gen_bytes(rng, 32)) }),
+            ("min-bytes40", Forge { key: k0.clone(), version: i64::MIN, value: Ok(gen_bytes(rng, 40)) }),
+            ("neg1-empty", Forge { key: k0.clone(), version: -1, value: Ok(vec![]) }),
+            ("neg1-short31", Forge { key: k0.clone(), version: -1, value: Ok(gen_bytes(rng, 31)) }),
+            ("neg1-stored-bytes", Forge { key: k0.clone(), version: -1, value: Err(k0.clone()) }),
+            ("neg1-new-key", Forge { key: newkey.clone(), version: -1, value: Ok(gen_bytes(rng, 50)) }),
+            ("unwritten-version-stored-bytes", Forge { key: k0.clone(), version: v0 + 7, value: Err(k0.clone()) }),
+            ("earlier-version-stored-bytes", Forge { key: k0.clone(), version: v0 - 1, value: Err(k0.clone()) }),
+            ("max-version-bytes64", Forge { key: k0.clone(), version: i64::MAX, value: Ok(gen_bytes(rng, 64)) }),
+            ("new-key-v0-bytes48", Forge { key: newkey.clone(), version: 0, value: Ok(gen_bytes(rng, 48)) }),
+            ("other-key-stored-bytes", Forge { key: other.clone(), version: v0, value: Err(k0.clone()) }),
+        ];
+        let is_written = |r: &WRec, written: &Vec<WRec>| written.iter().any(|w| w == r);
+        for (name, f) in forges {
+            // ---- in a get reply
+            *inner.mode.lock().unwrap() = Mode::ForgeGet(f.clone());
+            let res = client.get(&hmac_secret[..], "".to_string()).await;
+            *inner.mode.lock().unwrap() = Mode::Honest;
+            let delivered: Vec<WRec> = inner.last.lock().unwrap().take().map(|(_, d)| d.0).unwrap_or_default();
+            let (outcome, returned): (String, Option<Vec<WRec>>) = match res {
+                Ok(kvs) => ("returned".to_string(), Some(kvs.into_iter().map(|(k, v)| (k, v.version, v.value)).collect())),
+                Err(ClientError::InvalidHmac(k, v)) => (format!("InvalidHmac:{}:{}", hex::encode(k.as_bytes()), v), None),
+                Err(ClientError::InvalidServerHmac()) => ("InvalidServerHmac".to_string(), None),
+                Err(e) => (format!("error:{:?}", e), None),
+            };
+            *stats.entry(format!("Priv:forged-get:{}", outcome.split(':').next().unwrap())).or_default() += 1;
+            if let Some(l) = &returned {
+                for r in l {
+                    if !is_written(r, &written) {
+                        findings.push(json!({"kind": "forged-record-returned", "where": "PrivClient::get", "forge": name,
+                            "record_secret": hex::encode(hmac_secret), "delivered_by_server": j_wrecs(&delivered),
+                            "returned_record": j_wrecs(&[r.clone()]), "written_by_signer": j_wrecs(&written)}));
+                    }
+                }
+            }
+            ops.push(json!({"op": "forged-get", "forge": name, "delivered": j_wrecs(&delivered), "outcome": outcome,
+                            "returned": returned.as_ref().map(|l| j_wrecs(l)), "coq": coq_open(&hmac_secret, &delivered)}));
+            // ---- in the conflict list of a refused put
+            let next = current.get(&k0).map(|(v, _)| v + 1).unwrap_or(0);
+            *inner.mode.lock().unwrap() = Mode::ForgeConflict(f.clone());
+            let res = client.put(&hmac_secret[..], vec![(k0.clone(), Value { version: next as i64, value: b"next".to_vec() })]).await;
+            *inner.mode.lock().unwrap() = Mode::Honest;
+            let delivered: Vec<WRec> = inner.last_conflict.lock().unwrap().take().unwrap_or_default();
+            let (outcome, reported): (String, Option<Vec<WRec>>) = match res {
+                Ok(()) => ("stored".to_string(), None),
+                Err(ClientError::PutConflict(kvs)) => ("PutConflict".to_string(), Some(kvs.into_iter().map(|(k, v)| (k, v.version, v.value)).collect())),
+                Err(ClientError::InvalidHmac(k, v)) => (format!("InvalidHmac:{}:{}", hex::encode(k.as_bytes()), v), None),
+                Err(ClientError::InvalidServerHmac()) => ("InvalidServerHmac".to_string(), None),
+                Err(e) => (format!("error:{:?}", e), None),
+            };
+            *stats.entry(format!("Priv:forged-conflict:{}", outcome.split(':').next().unwrap())).or_default() += 1;
+            if let Some(l) = &reported {
+                for r in l {
+                    // the bare placeholder of lss.proto (version -1, no value) carries no content
+                    if !is_written(r, &written) && !(r.1 == -1 && r.2.is_empty()) {
+                        findings.push(json!({"kind": "forged-record-returned", "where": "PrivClient::put conflict", "forge": name,
+                            "record_secret": hex::encode(hmac_secret), "delivered_by_server": j_wrecs(&delivered),
+                            "returned_record": j_wrecs(&[r.clone()]), "written_by_signer": j_wrecs(&written)}));
+                    }
+                }
+            }
+            ops.push(json!({"op": "forged-conflict", "forge": name, "delivered": j_wrecs(&delivered), "outcome": outcome,
+                            "returned": reported.as_ref().map(|l| j_wrecs(l)), "coq": coq_open(&hmac_secret, &delivered)}));
+        }
+        // ---- honest conflicts: a stale put of an existing key, a put with a gap for a new key
+        let honest_puts: Vec<(&'static str, String, i64)> = vec![("stale-put", k0.clone(), v0), ("gap-put-new-key", newkey.clone(), 1)];
+        for (name, k, ver) in honest_puts {
+            let res = client.put(&hmac_secret[..], vec![(k.clone(), Value { version: ver, value: b"x".to_vec() })]).await;
+            let delivered: Vec<WRec> = inner.last_conflict.lock().unwrap().take().unwrap_or_default();
+            let (outcome, reported): (String, Option<Vec<WRec>>) = match res {
+                Ok(()) => ("stored".to_string(), None),
+                Err(ClientError::PutConflict(kvs)) => ("PutConflict".to_string(), Some(kvs.into_iter().map(|(k, v)| (k, v.version, v.value)).collect())),
+                Err(ClientError::InvalidHmac(k, v)) => (format!("InvalidHmac:{}:{}", hex::encode(k.as_bytes()), v), None),
+                Err(e) => (format!("error:{:?}", e), None),
+            };
+            *stats.entry(format!("Priv:{}:{}", name, outcome.split(':').next().unwrap())).or_default() += 1;
+            if let Some(l) = &reported {
+                for r in l {
+                    if !is_written(r, &written) && !(r.1 == -1 && r.2.is_empty()) {
+                        findings.push(json!({"kind": "genuine-conflict-wrong-record", "where": name, "returned_record": j_wrecs(&[r.clone()])}));
+                    }
+                }
+            }
+            if name == "stale-put" && outcome != "PutConflict" {
+                findings.push(json!({"kind": "genuine-conflict-not-reported", "outcome": outcome}));
+            }
+            ops.push(json!({"op": name, "delivered": j_wrecs(&delivered), "outcome": outcome,
+                            "returned": reported.as_ref().map(|l| j_wrecs(l)), "coq": coq_open(&hmac_secret, &delivered)}));
         }
     }
 
@@ -1413,6 +1594,7 @@ mod net {
                 Mode::SwapNonce(_) => "swap-nonce".to_string(),
                 Mode::Tamper(k, _) => format!("tamper:{}", k),
                 Mode::SwapPrefix => "prefix-swapped".to_string(),
+                Mode::ForgeGet(_) | Mode::ForgeConflict(_) => unreachable!(),
             };
             let j_wire = |w: &Wire| json!({"rs": w.0.iter().map(|(k, v, x)| json!([hex::encode(k.as_bytes()), (*v as u64).to_string(), hex::encode(x)])).collect::<Vec<_>>(), "tag": hex::encode(&w.1)});
             let outcome = match &res {
@@ -1478,6 +1660,9 @@ mod net {
                 _ => {}
             }
         }
+        if let Reader::Priv { client, hmac_secret } = &mut reader {
+            forge_battery(inner, client, *hmac_secret, &keys, &mut current, rng, &mut ops, &mut findings, stats).await;
+        }
         // the nonces this client sent, in order: 32 bytes each, none used before
         let nonces: Vec<Vec<u8>> = inner.wire_nonces.lock().unwrap().get(&client_id).cloned().unwrap_or_default();
         let mut fresh = true;
@@ -1515,6 +1700,7 @@ mod net {
                 wire_nonces: Mutex::new(BTreeMap::new()),
                 recorded: Mutex::new(BTreeMap::new()),
                 last: Mutex::new(None),
+                last_conflict: Mutex::new(None),
             });
             let listener = tokio::net::TcpListener::bind("127.0.0.1:0").await.expect("bind");
             let uri = format!("http://{}", listener.local_addr().unwrap());
